@@ -38,11 +38,10 @@ class Platform:
 
     def define(self, identifier, macro):
         """
-        Define a new macro for this platform, only if it's not already
-        defined.
+        Define a macro for this platform. As in a compiler, a later
+        definition replaces an earlier one of the same name.
         """
-        if identifier not in self._definitions:
-            self._definitions[identifier] = macro
+        self._definitions[identifier] = macro
 
     def add_include_to_skip(self, fn):
         """
